@@ -1,5 +1,6 @@
 import Driver.Util
 import KavaVerif.Model.GenesisModels
+import KavaVerif.Model.GenesisMore
 /-!
   C14 driver.
 
@@ -9,11 +10,19 @@ import KavaVerif.Model.GenesisModels
   * `c14.module plan module equal path a b` — original export vs re-export of one module, JSON-normalised.
   * `c14.store plan module prefix …` — raw KV stores of every Kava module, derived indexes included, original
     (check state after export) vs imported app, per first key byte (PREDFAIL C14_store_identical module=… prefix=…).
-  * `c14.tx`, `c14.pos`, `c14.invariant` — the common follow-up block: same result codes, every balance and
+  * `c14.tx`, `c14.pos`, `c14.invariant` — the common follow-up blocks: same result codes, every balance and
     position equal up to one base unit, all registered invariants hold on the imported app.
+  * `c14.section` — the incentive section field by field (exact) at import time; `c14.fsection`, `c14.macc`,
+    `c14.supply` — after the follow-up blocks (which switch back on what governance had switched off before the
+    export): every module's exported genesis field by field, module account balances and total supplies of the
+    original vs the imported chain (PREDFAIL C14_followup_state_identical / C14_followup_module_balances /
+    C14_followup_supply).  The plan field carries `@<parameter changes>:<mode>`.
   * `c14.pb`, `c14.savings`, `c14.swap`, `c14.bep3` — the exported (A) and re-exported (B) sections of the four
     modelled modules: the Lean `validate` must accept A (the real import accepted it), the Lean `init` followed
     by `export` must reproduce B (MISMATCH otherwise), and A = B is the property (PREDFAIL).
+  * `c14.kavadist`, `c14.community`, `c14.issuance`, `c14.auction`, `c14.committee`, `c14.hard` (markets + accrual
+    records), `c14.pricefeed` (A minus the posts expired at import time = B), `c14.cdp` — the same for the models of
+    Model/GenesisMore.lean.
 -/
 namespace Drv.C14
 open KV.Gx
@@ -55,6 +64,34 @@ def handleStore : Handler
     if equal == "1" then "ok"
     else predfail "C14_store_identical" s!"module={m} prefix={pfx} kind={kind} keys={n} first-key={key} plan={plan}"
   | _ => badInput "c14.store arity"
+
+/-- `c14.section plan module field equal path a b gov`: one top-level field of a module's exported section,
+    original export vs re-export of the imported app, compared exactly -/
+def handleSection : Handler
+  | [plan, m, f, equal, path, a, b, _gov] =>
+    if equal == "1" then "ok"
+    else predfail "C14_section_identical" s!"module={m} field={f} path={stripIdx path} plan={plan} original={a} imported={b}"
+  | _ => badInput "c14.section arity"
+
+/-- `c14.fsection plan module field equal path a b gov`: one top-level field of a module's section in the documents
+    exported from the original and from the imported chain AFTER the common follow-up blocks (numeric leaves
+    compared within the harness's tolerance): "the imported chain then behaves like the original" -/
+def handleFSection : Handler
+  | [plan, m, f, equal, path, a, b, _gov] =>
+    if equal == "1" then "ok"
+    else predfail "C14_followup_state_identical" s!"module={m} field={f} path={stripIdx path} plan={plan} original={a} imported={b}"
+  | _ => badInput "c14.fsection arity"
+
+/-- `c14.macc plan account/denom a b tol gov` and `c14.supply plan denom a b tol gov`: module account balances and
+    total supplies of the two chains after the follow-up blocks, equal up to `tol` base units -/
+def handleAmount (pred : String) : Handler
+  | [plan, key, a, b, tol, _gov] =>
+    match int? a, int? b, nat? tol with
+    | some x, some y, some t =>
+      if (x - y).natAbs ≤ t then "ok"
+      else predfail pred s!"key={key} original={a} imported={b} tolerance={tol} plan={plan}"
+    | _, _, _ => badInput "amount fields"
+  | _ => badInput "c14.macc/c14.supply arity"
 
 def handleTx : Handler
   | [plan, idx, kind, a, b] =>
@@ -202,10 +239,254 @@ def handleBep3 : Handler
     | _, _, _, _, _ => badInput "c14.bep3 fields"
   | _ => badInput "c14.bep3 arity"
 
+/-! ### ties of the further models (Model/GenesisMore.lean) -/
+
+/-- time token of the harness: "zero" = Go's time.Time{}, "default" = time.Unix(1,0), otherwise Unix nanoseconds -/
+def tick? (s : String) : Option Int :=
+  if s == "zero" then some goZeroTime else if s == "default" then some kdDefaultPrev else int? s
+
+def bool? (s : String) : Option Bool := if s == "1" then some true else if s == "0" then some false else none
+
+def kdPeriods? (s : String) : Option (List KdPeriod) :=
+  (strs s).mapM fun e =>
+    match e.splitOn ":" with
+    | [a, b, i] => match tick? a, tick? b, nat? i with
+      | some a, some b, some i => some ⟨a, b, i⟩
+      | _, _, _ => none
+    | _ => none
+
+def handleKavadist : Handler
+  | [plan, aa, pa, pra, _, ab, pb, prb] =>
+    match bool? aa, tick? pa, kdPeriods? pra, bool? ab, tick? pb, kdPeriods? prb with
+    | some aa, some pa, some pra, some ab, some pb, some prb =>
+      let g : KdGenesis := ⟨aa, pra, pa⟩
+      let gB : KdGenesis := ⟨ab, prb, pb⟩
+      if !kdValidate g then mismatch "kdValidate" "rejected" "accepted"
+      else match kdInit g with
+        | none => mismatch "kdInit" "rejected" "accepted"
+        | some s' =>
+          if kdExport s' != gB then mismatch "kavadist-reexport" (toString (repr (kdExport s'))) (toString (repr gB))
+          else if g != gB then predfail "C14_reexport_identical" s!"module=kavadist model-tie plan={plan}"
+          else "ok"
+    | _, _, _, _, _, _ => badInput "c14.kavadist fields"
+  | _ => badInput "c14.kavadist arity"
+
+def cmState? (l : List String) : Option CmState :=
+  match l with
+  | [ut, r, ur, la, te] => match tick? ut, int? r, int? ur, tick? la, int? te with
+    | some ut, some r, some ur, some la, some te => some ⟨⟨ut, r, ur⟩, la, te⟩
+    | _, _, _, _, _ => none
+  | _ => none
+
+def handleCommunity : Handler
+  | [plan, a1, a2, a3, a4, a5, _, b1, b2, b3, b4, b5] =>
+    match cmState? [a1, a2, a3, a4, a5], cmState? [b1, b2, b3, b4, b5] with
+    | some g, some gB =>
+      -- x/community's InitGenesis runs no GenesisState.Validate; `kava validate-genesis` does (c14.step validate)
+      match cmInit g with
+      | none => mismatch "cmInit" "rejected" "accepted"
+      | some s' =>
+        if cmExport s' != gB then mismatch "community-reexport" (toString (repr (cmExport s'))) (toString (repr gB))
+        else if !cmValidate g then predfail "C14_validation_passes" s!"module=community model-tie plan={plan}"
+        else if g != gB then predfail "C14_reexport_identical" s!"module=community model-tie plan={plan}"
+        else "ok"
+    | _, _ => badInput "c14.community fields"
+  | _ => badInput "c14.community arity"
+
+def issAssets? (s : String) : Option (List IssAsset) :=
+  (strs s).mapM fun e =>
+    match e.splitOn ":" with
+    | [d, p, r] => match nat? d, bool? p, bool? r with
+      | some d, some p, some r => some ⟨d, p, r⟩
+      | _, _, _ => none
+    | _ => none
+
+def issSupplies? (s : String) : Option (List (Nat × IssSupply)) :=
+  (strs s).mapM fun e =>
+    match e.splitOn ":" with
+    | [d, c, t] => match nat? d, int? c, int? t with
+      | some d, some c, some t => some (d, ⟨c, t⟩)
+      | _, _, _ => none
+    | _ => none
+
+def handleIssuance : Handler
+  | [plan, aa, sa, _, ab, sb] =>
+    match issAssets? aa, issSupplies? sa, issAssets? ab, issSupplies? sb with
+    | some aa, some sa, some ab, some sb =>
+      let g : IssGenesis := ⟨aa, sa⟩
+      let gB : IssGenesis := ⟨ab, sb⟩
+      if !issValidate g then mismatch "issValidate" "rejected" "accepted"
+      else match issInit g with
+        | none => mismatch "issInit" "rejected" "accepted"
+        | some s' =>
+          if issExport s' != gB then mismatch "issuance-reexport" (toString (repr (issExport s'))) (toString (repr gB))
+          else if g != gB then predfail "C14_reexport_identical" s!"module=issuance model-tie plan={plan}"
+          else "ok"
+    | _, _, _, _ => badInput "c14.issuance fields"
+  | _ => badInput "c14.issuance arity"
+
+def aucs? (s : String) : Option (List (Nat × Auc)) :=
+  (strs s).mapM fun e =>
+    match e.splitOn ":" with
+    | [i, t, h] => match nat? i, tick? t, int? h with
+      | some i, some t, some h => some (i, ⟨t, h⟩)
+      | _, _, _ => none
+    | _ => none
+
+def handleAuction : Handler
+  | [plan, na, sa, macc, _, nb, sb] =>
+    match nat? na, aucs? sa, int? macc, nat? nb, aucs? sb with
+    | some na, some sa, some macc, some nb, some sb =>
+      let g : AucGenesis := ⟨na, sa⟩
+      let gB : AucGenesis := ⟨nb, sb⟩
+      if !aucValidate g then mismatch "aucValidate" "rejected" "accepted"
+      else match aucInit g macc with
+        | none => mismatch "aucInit" "rejected" "accepted"
+        | some s' =>
+          if aucExport s' != gB then mismatch "auction-reexport" "model" "impl"
+          else if s'.byTime != byTimeOf sb then mismatch "auction-index" "model" "derived"
+          else if g != gB then predfail "C14_reexport_identical" s!"module=auction model-tie plan={plan}"
+          else "ok"
+    | _, _, _, _, _ => badInput "c14.auction fields"
+  | _ => badInput "c14.auction arity"
+
+def natPairs? (s : String) : Option (List (Nat × Nat)) :=
+  (strs s).mapM fun e =>
+    match e.splitOn ":" with
+    | [k, v] => match nat? k, nat? v with | some k, some v => some (k, v) | _, _ => none
+    | _ => none
+
+def natTriples? (s : String) : Option (List (Nat × (Nat × Nat))) :=
+  (strs s).mapM fun e =>
+    match e.splitOn ":" with
+    | [k, a, b] => match nat? k, nat? a, nat? b with | some k, some a, some b => some (k, (a, b)) | _, _, _ => none
+    | _ => none
+
+def handleCommittee : Handler
+  | [plan, na, ca, pa, va, _, nb, cb, pb, vb] =>
+    match nat? na, natPairs? ca, natTriples? pa, natTriples? va, nat? nb, natPairs? cb, natTriples? pb, natTriples? vb with
+    | some na, some ca, some pa, some va, some nb, some cb, some pb, some vb =>
+      let g : CoGenesis := ⟨na, ca, pa, va⟩
+      let gB : CoGenesis := ⟨nb, cb, pb, vb⟩
+      if !coValidate g then mismatch "coValidate" "rejected" "accepted"
+      else match coInit g with
+        | none => mismatch "coInit" "rejected" "accepted"
+        | some s' =>
+          if coExport s' != gB then mismatch "committee-reexport" "model" "impl"
+          else if g != gB then predfail "C14_reexport_identical" s!"module=committee model-tie plan={plan}"
+          else "ok"
+    | _, _, _, _, _, _, _, _ => badInput "c14.committee fields"
+  | _ => badInput "c14.committee arity"
+
+def nats? (s : String) : Option (List Nat) := (strs s).mapM nat?
+
+def hardAccrual? (s : String) : Option (List (Nat × HardAccrual)) :=
+  (strs s).mapM fun e =>
+    match e.splitOn ":" with
+    | [d, t, sf, bf] => match nat? d, tick? t, int? sf, int? bf with
+      | some d, some t, some sf, some bf => some (d, ⟨t, sf, bf⟩)
+      | _, _, _, _ => none
+    | _ => none
+
+/-- markets and accrual records only (deposits, borrows and totals are compared by c14.module / c14.store) -/
+def handleHard : Handler
+  | [plan, ma, aa, _, mb, ab] =>
+    match nats? ma, hardAccrual? aa, nats? mb, hardAccrual? ab with
+    | some ma, some aa, some mb, some ab =>
+      let g : HardGenesis := ⟨ma, aa, [], [], [], [], []⟩
+      if !hardValidate g then mismatch "hardValidate" "rejected" "accepted"
+      else match hardInit g with
+        | none => mismatch "hardInit" "rejected" "accepted"
+        | some s' =>
+          let e := hardExport s'
+          if e.markets != mb || e.accrual != ab then mismatch "hard-reexport" (toString (repr e.accrual)) (toString (repr ab))
+          else if s'.mmStore != mb then mismatch "hard-money-markets" "model" "derived"
+          else if ma != mb || aa != ab then predfail "C14_reexport_identical" s!"module=hard model-tie plan={plan}"
+          else "ok"
+    | _, _, _, _ => badInput "c14.hard fields"
+  | _ => badInput "c14.hard arity"
+
+def pfMarkets? (s : String) : Option (List (Nat × Bool)) :=
+  (strs s).mapM fun e =>
+    match e.splitOn ":" with
+    | [m, a] => match nat? m, bool? a with | some m, some a => some (m, a) | _, _ => none
+    | _ => none
+
+def pfPosts? (s : String) : Option (List (Nat × Post)) :=
+  (strs s).mapM fun e =>
+    match e.splitOn ":" with
+    | [k, m, p, x] => match nat? k, nat? m, int? p, int? x with
+      | some k, some m, some p, some x => some (k, ⟨m, p, x⟩)
+      | _, _, _, _ => none
+    | _ => none
+
+/-- the model's import at `now` must reproduce the re-exported posts (MISMATCH otherwise); the property: the
+    re-export is the export minus the posts expired at import time -/
+def handlePricefeed : Handler
+  | [plan, now, ma, pa, _, mb, pb] =>
+    match int? now, pfMarkets? ma, pfPosts? pa, pfMarkets? mb, pfPosts? pb with
+    | some now, some ma, some pa, some mb, some pb =>
+      let s' := pfInit (fun _ => none) now ⟨ma, pa⟩
+      let e := pfExport s'
+      if e.markets != mb || e.posts != pb then
+        -- the model kept or dropped a post the implementation did not
+        (if ma != mb then predfail "C14_reexport_identical" s!"module=pricefeed markets model-tie plan={plan}"
+         else mismatch "pricefeed-reexport" (toString e.posts.length) (toString pb.length))
+      else if livePosts now pa != pb then predfail "C14_reexport_identical" s!"module=pricefeed model-tie plan={plan}"
+      else "ok"
+    | _, _, _, _, _ => badInput "c14.pricefeed fields"
+  | _ => badInput "c14.pricefeed arity"
+
+def cdpRecs? (s : String) : Option (List (Nat × CdpRec)) :=
+  (strs s).mapM fun e =>
+    match e.splitOn ":" with
+    | [k, o, t, c, p, f] => match nat? k, nat? o, nat? t, int? c, int? p, int? f with
+      | some k, some o, some t, some c, some p, some f => some (k, ⟨o, t, c, p, f⟩)
+      | _, _, _, _, _, _ => none
+    | _ => none
+
+def natInts? (s : String) : Option (List (Nat × Int)) :=
+  (strs s).mapM fun e =>
+    match e.splitOn ":" with
+    | [k, v] => match nat? k, int? v with | some k, some v => some (k, v) | _, _ => none
+    | _ => none
+
+def cdpAccum? (s : String) : Option (List (Nat × CdpAccum)) :=
+  (strs s).mapM fun e =>
+    match e.splitOn ":" with
+    | [k, t, f] => match nat? k, tick? t, int? f with | some k, some t, some f => some (k, ⟨t, f⟩) | _, _, _ => none
+    | _ => none
+
+def cdpGenesis? (l : List String) : Option CdpGenesis :=
+  match l with
+  | [ts, n, cs, ds, ps, as] => match nats? ts, nat? n, cdpRecs? cs, natInts? ds, natInts? ps, cdpAccum? as with
+    | some ts, some n, some cs, some ds, some ps, some as => some ⟨ts, n, cs, ds, ps, as⟩
+    | _, _, _, _, _, _ => none
+  | _ => none
+
+def handleCdp : Handler
+  | [plan, a1, a2, a3, a4, a5, a6, _, b1, b2, b3, b4, b5, b6] =>
+    match cdpGenesis? [a1, a2, a3, a4, a5, a6], cdpGenesis? [b1, b2, b3, b4, b5, b6] with
+    | some g, some gB =>
+      if !cdpValidate g then mismatch "cdpValidate" "rejected" "accepted"
+      else match cdpInit g with
+        | none => mismatch "cdpInit" "rejected" "accepted"
+        | some s' =>
+          if cdpExport s' != gB then mismatch "cdp-reexport" "model" "impl"
+          else if s'.ownerIndex != ownerIndexOf gB.cdps || s'.ratioIndex != ratioIndexOf gB.cdps then mismatch "cdp-indexes" "model" "derived"
+          else if g != gB then predfail "C14_reexport_identical" s!"module=cdp model-tie plan={plan}"
+          else "ok"
+    | _, _ => badInput "c14.cdp fields"
+  | _ => badInput "c14.cdp arity"
+
 /-- handlers of property C14: (command name, handler) -/
 def handlers : List (String × Handler) := [
   ("c14.step", handleStep), ("c14.module", handleModule), ("c14.store", handleStore), ("c14.tx", handleTx), ("c14.pos", handlePos),
-  ("c14.invariant", handleInvariant), ("c14.pb", handlePB), ("c14.savings", handleSavings),
-  ("c14.swap", handleSwap), ("c14.bep3", handleBep3)
+  ("c14.invariant", handleInvariant), ("c14.section", handleSection), ("c14.fsection", handleFSection),
+  ("c14.macc", handleAmount "C14_followup_module_balances"), ("c14.supply", handleAmount "C14_followup_supply"), ("c14.pb", handlePB), ("c14.savings", handleSavings),
+  ("c14.swap", handleSwap), ("c14.bep3", handleBep3),
+  ("c14.kavadist", handleKavadist), ("c14.community", handleCommunity), ("c14.issuance", handleIssuance),
+  ("c14.auction", handleAuction), ("c14.committee", handleCommittee), ("c14.hard", handleHard),
+  ("c14.pricefeed", handlePricefeed), ("c14.cdp", handleCdp)
 ]
 end Drv.C14
